@@ -44,9 +44,10 @@ struct Server {
     buf: Vec<u8>, idle: bool, pending: Vec<Vec<u8>>, lines: Vec<Vec<u8>>, violations: Vec<String>, changed: Vec<Vec<u8>>, in_list: Option<Vec<Vec<u8>>>,
     outbox: VecDeque<u8>, password: String, closed: bool, multi_changed: bool,
     art: Option<(Vec<u8>, usize, usize, bool)>, art_requests: Vec<Vec<u8>>, known: Option<Vec<Vec<u8>>>,
+    art_limit2: usize, art_cutlf: bool, barriers: Vec<usize>, sent_total: usize,
 }
 impl Server {
-    fn send(&mut self, d: &[u8]) { self.outbox.extend(d.iter().copied()); }
+    fn send(&mut self, d: &[u8]) { self.outbox.extend(d.iter().copied()); self.sent_total += d.len(); }
     fn change(&mut self, name: &[u8]) {
         if self.idle { self.idle = false; self.changed.push(name.to_vec()); let mut l = b"changed: ".to_vec(); l.extend_from_slice(name); l.extend_from_slice(b"\nOK\n"); self.send(&l); }
         else if !self.pending.iter().any(|p| p == name) { self.pending.push(name.to_vec()); }
@@ -98,10 +99,13 @@ impl Server {
                     if source == 4 { self.send(b"ACK [52@0] {readpicture} nope\n"); return; }
                     if source != 0 { self.send(b"OK\n"); return; }
                 } else if source == 3 { self.send(b"OK\n"); return; }
+                let limit = if off == 0 || self.art_limit2 == 0 { limit } else { self.art_limit2 };
                 let chunk = &pic[off.min(pic.len())..(off + limit).min(pic.len())];
                 let mut out = format!("size: {}\n", pic.len()).into_bytes();
                 if mime && embedded { out.extend_from_slice(b"type: image/png\n"); }
-                out.extend_from_slice(format!("binary: {}\n", chunk.len()).as_bytes()); out.extend_from_slice(chunk); out.extend_from_slice(b"\nOK\n");
+                out.extend_from_slice(format!("binary: {}\n", chunk.len()).as_bytes());
+                if self.art_cutlf { self.barriers.push(self.sent_total + out.len() + chunk.len()); }
+                out.extend_from_slice(chunk); out.extend_from_slice(b"\nOK\n");
                 self.send(&out); return;
             }
         }
@@ -166,6 +170,8 @@ pub fn client(a: &[String]) {
             let size: usize = p[0].parse().unwrap();
             let pic: Vec<u8> = (0..size).map(|i| if i % 3 != 0 { 0x41 + (i % 5) as u8 } else { 10 }).collect();
             server.borrow_mut().art = Some((pic, p[1].parse().unwrap(), p[2].parse().unwrap(), p[3] == "1"));
+            server.borrow_mut().art_limit2 = p.get(4).map(|x| x.parse().unwrap()).unwrap_or(0);
+            server.borrow_mut().art_cutlf = p.get(5).map(|x| *x == "1").unwrap_or(false);
         }
         {
             let mut k: Vec<Vec<u8>> = vec![b"command_list_ok_begin".to_vec(), b"command_list_end".to_vec()];
@@ -228,6 +234,8 @@ pub fn client(a: &[String]) {
             if !s.outbox.is_empty() {
                 let mut e = s.outbox.iter().position(|b| *b == b'\n').map(|p| p + 1).unwrap_or(s.outbox.len());
                 if $half && e > 1 { e = (e / 2).max(1); }
+                let d = s.sent_total - s.outbox.len();
+                if let Some(i) = s.barriers.iter().position(|b| d < *b && *b < d + e) { e = s.barriers[i] - d; s.barriers.remove(i); }
                 let out: Vec<u8> = s.outbox.drain(..e).collect();
                 drop(s);
                 if let Some(w) = srv_w.as_mut() { let _ = w.write_all(&out).await; }
@@ -265,8 +273,9 @@ pub fn client(a: &[String]) {
         let _ = change_n;
         flags.budget.store(-1, Ordering::SeqCst); if let Some(w) = flags.waker.lock().unwrap().take() { w.wake(); }
         // final settle (as in the python harness): everything delivered, timers expired, everything polled
-        for round in 0..12 {
-            for _ in 0..6 { while !server.borrow().outbox.is_empty() { deliver!(false); } run_tasks!(); for i in 0..callers.len() { poll_caller!(i); } }
+        let step = server.borrow().art_cutlf;          // deliver one segment, then let everything run (instead of draining)
+        for round in 0..(if step { 80 } else { 12 }) {
+            for _ in 0..6 { while !server.borrow().outbox.is_empty() { deliver!(false); if step { break; } } run_tasks!(); for i in 0..callers.len() { poll_caller!(i); } }
             if round < 2 { tokio::time::advance(Duration::from_millis(150)).await; pump!(); }
         }
         // observations
